@@ -1,5 +1,137 @@
-From C16 Require Import Model Proofs.
+(* C16 — property theorems. Only statements closed by `exact <lemma>`, Print Assumptions beneath,
+   the refutations of the code before commit 2959d55, and the non-vacuity examples. *)
+From C16 Require Import Model CaseDefs Proofs.
 
-Theorem C16_docs_length : forall req streams, length (fetch req streams) = length req.
-Proof. intros; apply align_length. Qed.
-Print Assumptions C16_docs_length.
+(* Per shard: the replicas are tried in order; plain errors are skipped; the first replica that does
+   anything else decides: an answer, or a special refusal (too-many-uniq fails the shard at once). *)
+Theorem C16_shard_first_answer_decides : forall sh,
+  match search_shard sh with
+  | SAns s l => exists pre post, sh = pre ++ (s, BOk l) :: post /\ Forall (fun r => snd r = BErr) pre
+  | SWantsOld => exists pre s post, sh = pre ++ (s, BWantsOld) :: post /\ Forall (fun r => snd r = BErr) pre
+  | STooManyFrac => exists pre s post, sh = pre ++ (s, BTooManyFrac) :: post /\ Forall (fun r => snd r = BErr) pre
+  | SFail => Forall (fun r => snd r = BErr) sh
+             \/ exists pre s post, sh = pre ++ (s, BTooManyUniq) :: post /\ Forall (fun r => snd r = BErr) pre
+  end.
+Proof. exact search_shard_spec. Qed.
+Print Assumptions C16_shard_first_answer_decides.
+
+(* Per tier: a response is built from exactly the shards that had an answering replica; it is
+   flagged partial if and only if some shard had none (and then at least one had); when no shard
+   answers the tier fails; a special refusal of any shard wins over everything. *)
+Theorem C16_tier_complete_or_partial : forall prio shards,
+  let rs := map search_shard shards in
+  match search_stores prio shards with
+  | TOk p qs => qs = answers rs /\ existsb is_wo rs = false /\ existsb is_tmf rs = false
+                /\ p = existsb is_fail rs /\ (p = true -> qs <> [])
+  | TFail => existsb is_wo rs = false /\ existsb is_tmf rs = false
+             /\ existsb is_fail rs = true /\ answers rs = []
+  | TWantsOld => existsb is_wo rs = true
+  | TTooManyFrac => existsb is_tmf rs = true
+  end.
+Proof. exact search_stores_spec. Qed.
+Print Assumptions C16_tier_complete_or_partial.
+
+(* Whole search, for EVERY sorting function that returns a sorted permutation (sort.Sort is not
+   stable): the outcome is the error of the deciding tier, or carries that tier's partial flag and
+   the returned IDs are exactly the page [off, off+size) of the duplicate-free union of the
+   answering shards' IDs in response order (rank specification, CaseDefs.page_ok — the same checker
+   the correspondence run applies to the real output), each with a source that really answered it. *)
+Theorem C16_complete_or_partial : forall sort, sort_ok sort ->
+  forall p1 p2 hot hotread cold off size rev,
+  match verdict_of p1 p2 hot hotread cold, search sort p1 p2 hot hotread cold off size rev with
+  | VErr k, SErr k' => k = k'
+  | VOk p qs, SOk p' out =>
+      p = p' /\ page_ok rev (flat_map snd qs) off size (map fst out) = true /\ sources_ok qs out = true
+  | _, _ => False
+  end.
+Proof. exact search_ok. Qed.
+Print Assumptions C16_complete_or_partial.
+
+(* A hot tier that declares the range too old hands the query to the long-term stores, and the
+   outcome is exactly the outcome of searching those alone (same classification, same page);
+   without long-term stores it is the wants-old error. *)
+Theorem C16_cold_fallback : forall sort, sort_ok sort ->
+  forall p1 p2 hot hotread cold off size rev,
+  search_stores p1 (match hotread with [] => hot | _ => hotread end) = TWantsOld ->
+  (cold <> [] -> search sort p1 p2 hot hotread cold off size rev = search sort p2 p2 cold [] [] off size rev)
+  /\ (cold = [] -> search sort p1 p2 hot hotread cold off size rev = SErr EWantsOld).
+Proof.
+  intros sort Hs p1 p2 hot hotread cold off size rev H. split.
+  - exact (cold_fallback sort p1 p2 hot hotread cold off size rev H).
+  - intros ->. exact (no_cold_tier sort p1 p2 hot hotread off size rev H).
+Qed.
+Print Assumptions C16_cold_fallback.
+
+(* Documents, for ALL stream contents (missing, truncated, reordered, duplicated, unrequested
+   documents, any number of streams in any order): exactly one document per requested ID, the i-th
+   one carries the i-th ID and source, and is empty or a payload that the ID's own source really
+   sent under that ID. No hypothesis: since 2959d55 the comparison is total. *)
+Theorem C16_docs_aligned : forall req streams,
+  docs_sound req streams (fetch req streams) = true
+  /\ length (fetch req streams) = length req.
+Proof.
+  intros req streams. split; [exact (fetch_sound req streams)|].
+  exact (docs_sound_length req streams _ (fetch_sound req streams)).
+Qed.
+Print Assumptions C16_docs_aligned.
+
+(* The hot store refuses exactly when it is mature and the range starts before its oldest
+   fraction (or it holds nothing). *)
+Theorem C16_hot_refusal : forall mature oldest from,
+  hot_refuses mature oldest from = true <-> mature = true /\ (oldest = 0 \/ from < oldest)%N.
+Proof. exact hot_refuses_spec. Qed.
+Print Assumptions C16_hot_refusal.
+
+(* ---------------------------------------------------------------- non-vacuity *)
+(* the hypothesis on the sorting function is satisfiable: the executable instance *)
+Example C16_sort_hypothesis_witnessed : sort_ok isort.
+Proof. exact isort_ok. Qed.
+
+(* a partial response: shard 2 has no answering replica; duplicate ID (7,1) collapsed *)
+Example C16_partial_example :
+  search isort true true
+    [[(0, BErr); (1, BOk [(9,0); (7,1); (3,0)]%N)]; [(2, BErr); (3, BTooManyUniq)]; [(4, BOk [(8,0); (7,1)]%N)]]
+    [] [] 1 3 false
+  = SOk true [((8,0)%N, 4); ((7,1)%N, 1); ((3,0)%N, 1)].
+Proof. vm_compute. reflexivity. Qed.
+
+(* cold fallback taken *)
+Example C16_cold_example :
+  search isort true true [[(0, BWantsOld)]; [(1, BOk [(9,0)]%N)]] [] [[(2, BOk [(1,1); (1,0)]%N)]] 0 5 false
+  = SOk false [((1,1)%N, 2); ((1,0)%N, 2)].
+Proof. vm_compute. reflexivity. Qed.
+
+(* alignment with an unrequested document at the head of each of two streams, a missing document
+   and a stream that stops early *)
+Example C16_two_unknown_heads :
+  fetch [((9,0)%N, 0); ((8,0)%N, 1); ((7,0)%N, 0); ((6,0)%N, 1)]
+        [(0, [((5,5), 11); ((9,0), 12); ((7,0), 13)]%N); (1, [((4,4), 21); ((8,0), 22)]%N)]
+  = [(((9,0)%N, 0), 12%N); (((8,0)%N, 1), 22%N); (((7,0)%N, 0), 13%N); (((6,0)%N, 1), 0%N)].
+Proof. vm_compute. reflexivity. Qed.
+
+(* ---------------------------------------------------------------- the code before 2959d55 *)
+(* DESIGN section 9 #11: two streams both starting with unrequested documents: panic *)
+Example C16_two_unknown_heads_v0_refuted :
+  exists req s0 s1, fetch_v0 false req s0 s1 = None /\ exists out, fetch req [s0; s1] = out /\ length out = length req.
+Proof.
+  exists [((9,0)%N, 0); ((8,0)%N, 1)], (0, [((5,5), 11); ((9,0), 12)]%N), (1, [((4,4), 21); ((8,0), 22)]%N).
+  split; [vm_compute; reflexivity | eexists; split; [reflexivity | vm_compute; reflexivity]].
+Qed.
+
+(* ... and, because requested IDs were looked up with their hint, one unrequested document at the
+   head of a single stream was enough *)
+Example C16_single_unknown_head_v0_refuted :
+  exists req s0, fetch_v0 true req s0 (1, []) = None
+                 /\ fetch req [s0] = [(((9,0)%N, 0), 12%N)].
+Proof.
+  exists [((9,0)%N, 0)], (0, [((5,5), 11); ((9,0), 12)]%N). split; vm_compute; reflexivity.
+Qed.
+
+(* ... and the fast-forward over late documents never ran: a document repeated by the store hid
+   every later document (here the document of (8,0)), which the repaired code delivers *)
+Example C16_no_fast_forward_v0_refuted :
+  exists req s0, fetch_v0 true req s0 (1, []) = Some [(((9,0)%N, 0), 12%N); (((8,0)%N, 0), 0%N)]
+                 /\ fetch req [s0] = [(((9,0)%N, 0), 12%N); (((8,0)%N, 0), 14%N)].
+Proof.
+  exists [((9,0)%N, 0); ((8,0)%N, 0)], (0, [((9,0), 12); ((9,0), 13); ((8,0), 14)]%N). split; vm_compute; reflexivity.
+Qed.
